@@ -122,10 +122,11 @@ RaisedLeavesNothingNew == status = "raised" /\ HasCleanup => ~dir
 
 -----------------------------------------------------------------------------
 (* the same judgement over an observation taken from the real code (see SaveObs.tla) *)
+(* Two observers: a later Lab ("fresh") and the very Lab object that performed the save ("same"). *)
 ObsPoison(o) ==
-  \/ o.is_cached /\ ~o.load_ok
-  \/ o.list_raises
-  \/ o.listed /\ ~o.load_ok
+  \/ (o.is_cached \/ o.same_is_cached) /\ ~o.load_ok
+  \/ o.list_raises \/ o.same_list_raises
+  \/ (o.listed \/ o.same_listed) /\ ~o.load_ok
   \/ o.load_ok /\ ~(o.load_val = "new" \/ (o.overwrite /\ o.load_val = "old"))
   \/ o.load_ok /\ o.meta_val # o.load_val
   \/ o.rerun_applicable /\ ~o.rerun_ok
